@@ -8,6 +8,7 @@ import (
 	"io"
 	"log"
 	"reflect"
+	"sort"
 	"strings"
 	"time"
 
@@ -195,6 +196,9 @@ type connHarness struct {
 	served    bool
 	servedSeq uint64
 	echoes    map[string]int
+	results   map[string]int // "result" envelopes per id
+	mutates   map[string]int // mutate messages sent per id
+	bumpNSent int            // read-modify-write mutations sent
 	faulty    bool
 	// ctxCancelled: the connection context was cancelled (subscriptions then
 	// end themselves with context.Canceled)
@@ -364,6 +368,7 @@ func (h *connHarness) onWrite(m *wireMsg) {
 	case "echo":
 		h.echoes[m.id]++
 	case "result":
+		h.results[m.id]++
 	case "error":
 		if m.byLoop {
 			h.loopErrors[h.s.readCalls-1]++
@@ -511,7 +516,7 @@ func (h *connHarness) expected(in *instance) (interface{}, bool) {
 func connBody(c *runner.Ctx) {
 	w := newWorld(c)
 	w.live = &liveState{w: w, trackers: map[string][]*liveRes{}, failNext: map[string]int{}, failKind: map[string]int{}, execFired: map[int]int{}}
-	h := &connHarness{c: c, w: w, live: map[string]*instance{}, echoes: map[string]int{}, loopErrors: map[int]int{}}
+	h := &connHarness{c: c, w: w, live: map[string]*instance{}, echoes: map[string]int{}, loopErrors: map[int]int{}, results: map[string]int{}, mutates: map[string]int{}}
 	w.live.onCanceled = func(inst int) {
 		if inst >= 0 && inst < len(h.instances) {
 			h.instances[inst].failedHard = true
@@ -671,10 +676,14 @@ func connBody(c *runner.Ctx) {
 				c.Fault("id-collision")
 			}
 			q := "mutation { bump }"
-			if h.faulty && c.Choose(3, "mutation-fails") == 1 {
+			if c.Choose(3, "mutation-read-modify-write") == 1 {
+				q = "mutation { bumpN }"
+				h.bumpNSent++
+			} else if h.faulty && c.Choose(3, "mutation-fails") == 1 {
 				q = fmt.Sprintf("mutation { fail(kind: %d) }", 1+c.Choose(3, "mutation-fail-kind"))
 				c.Fault("mutation-failure")
 			}
+			h.mutates[mid]++
 			desc = append(desc, fmt.Sprintf("mutate(%s %s)", mid, q))
 			h.send("mutate", mid, map[string]interface{}{"query": q, "variables": map[string]interface{}{}}, nil)
 		case op < 10:
@@ -685,17 +694,30 @@ func connBody(c *runner.Ctx) {
 			// level: handling it must not take exponential time
 			depth := 22 + c.Choose(5, "bomb-depth")
 			var sb strings.Builder
-			sb.WriteString("{ ...F0 }\n")
-			for i := 0; i < depth; i++ {
-				fmt.Fprintf(&sb, "fragment F%d on Query { ...F%d ...F%d }\n", i, i+1, i+1)
+			bombRoot := &qset{sels: []*qsel{{name: "n"}}}
+			if c.Choose(2, "bomb-through-union") == 1 {
+				// the same doubling, but every level goes through a union-typed
+				// field; a(i: 99) is null, so nothing below it is executed
+				depth += 10 // (one level is cheaper here than in the Query form)
+				bombRoot = &qset{sels: []*qsel{{name: "a", arg: "(i: 99)", argV: 99, sub: &qset{sels: []*qsel{{name: "id"}}}}}}
+				sb.WriteString("{ a(i: 99) { id ...F0 } }\n")
+				for i := 0; i < depth; i++ {
+					fmt.Fprintf(&sb, "fragment F%d on A { u { ... on A { ...F%d } } zu: u { ... on A { ...F%d } } }\n", i, i+1, i+1)
+				}
+				fmt.Fprintf(&sb, "fragment F%d on A { id }\n", depth)
+			} else {
+				sb.WriteString("{ ...F0 }\n")
+				for i := 0; i < depth; i++ {
+					fmt.Fprintf(&sb, "fragment F%d on Query { ...F%d ...F%d }\n", i, i+1, i+1)
+				}
+				fmt.Fprintf(&sb, "fragment F%d on Query { n }\n", depth)
 			}
-			fmt.Fprintf(&sb, "fragment F%d on Query { n }\n", depth)
 			c.Fault("fragment-spread-bomb")
 			c.WallGuard = 5 * time.Second
 			c.WallNote = fmt.Sprintf("subscribe with a %d-byte query of %d nested double fragment spreads", sb.Len(), depth)
 			desc = append(desc, fmt.Sprintf("bomb(%d)", depth))
 			// an ordinary subscription otherwise: its result is { n }
-			in := &instance{inst: len(h.instances), id: id, root: &qset{sels: []*qsel{{name: "n"}}}, text: sb.String()}
+			in := &instance{inst: len(h.instances), id: id, root: bombRoot, text: sb.String()}
 			h.instances = append(h.instances, in)
 			h.send("subscribe", id, map[string]interface{}{"query": in.text, "variables": map[string]interface{}{"inst": in.inst, "t": true, "f": false}}, in)
 		case op == 10 && h.faulty && c.Choose(2, "garbage-or-doomed") == 0:
@@ -892,6 +914,16 @@ func (h *connHarness) neededKeys(in *instance) []string {
 
 func (h *connHarness) lifecycleChecks() {
 	c := h.c
+	// a mutation runs once: one result at most per mutate message, and the
+	// read-modify-write resolver executed at most once per message that asked for it
+	for _, id := range sortedKeys(h.results) {
+		if h.results[id] > h.mutates[id] {
+			c.ViolateFor("C17,C02", "mutation-answered-twice", "%d result envelopes for id %s but only %d mutate messages were sent with it", h.results[id], id, h.mutates[id])
+		}
+	}
+	if h.w.counterRuns > h.bumpNSent {
+		c.ViolateFor("C17,C02", "mutation-executed-twice", "the read-modify-write mutation resolver ran %d times for %d mutate messages", h.w.counterRuns, h.bumpNSent)
+	}
 	if !h.served {
 		c.ViolateFor("C15,C17", "serve-never-returned", "ServeJSONSocket did not return within 5 simulated minutes after the socket was closed")
 	}
@@ -951,4 +983,13 @@ func (h *connHarness) lifecycleChecks() {
 			c.ViolateFor("C15,C17", "task-left-behind/"+t.Name, "task %s still alive (%s %s) 5 simulated minutes after the connection closed", t.Name, t.State, t.On)
 		}
 	}
+}
+
+func sortedKeys(m map[string]int) []string {
+	var out []string
+	for k := range m {
+		out = append(out, k)
+	}
+	sort.Strings(out)
+	return out
 }
